@@ -29,7 +29,7 @@ ASSUMPTIONS = ["sequences are sampled by seed; injection points are enumerated p
                "for GraphStream.graph() a failure inside a graph may keep or drop the triples of that graph that were "
                "accepted before the failing one"]
 EXHAUSTIVE_NOTE = "per sequence: every position x slot x applicable cause"
-PROBES = ["cause_none_term", "reenroll_after_reject", "cause_bad_namespace", "cause_unsupported", "cause_typed_literal", "cause_short_tuple", "slot_nested", "slot_g",
+PROBES = ["generator_entry_faults", "generator_entry_raised", "cause_none_term", "reenroll_after_reject", "cause_bad_namespace", "cause_unsupported", "cause_typed_literal", "cause_short_tuple", "slot_nested", "slot_g",
           "stream_refused_later_use", "no_trace", "physical_GRAPHS", "integration_rdflib"]
 SHRINK_LISTS = ["ops"]
 
@@ -249,12 +249,65 @@ def execute(plan, sim):
             sim.count("no_trace")
         if v and len(v) >= 3:
             break
+    v.extend(generator_entry(plan, sim, cfg, stmts))
     # one violation per distinct signature per run is enough
     uniq = {}
     for x in v:
         uniq.setdefault(repr(sorted(x["sig"].items())) + x["clause"], x)
     key = (repr(sorted(cfg.items())), repr(stmts)) if nontrivial else None
     return list(uniq.values()), key
+
+
+def generator_entry(plan, sim, cfg, stmts):
+    """The same faults through the entry point that takes a statement *iterator* (stream_frames over a generator):
+    the call must raise, or write every good statement - never return normally having dropped the rest of the
+    input (a StopIteration escaping inside a compiled generator ends it silently)."""
+    from pyjelly.serialize.ioutils import write_delimited
+    v = []
+    if cfg["physical"] == "GRAPHS" or len(stmts) < 2:
+        return v
+    conv = T.to_generic if cfg["integration"] == "generic" else T.to_rdflib
+    m = nodes.integ_mod(cfg)
+    arity = 3 if cfg["physical"] == "TRIPLES" else 4
+    pos = len(stmts) // 2
+    for cause in ("short_tuple", "short_statement_object", "unsupported"):
+        objs = [conv(t) for t in stmts[pos]]
+        if cause == "short_tuple":
+            bad = tuple(objs[:arity - 1])
+        elif cause == "short_statement_object":
+            if cfg["integration"] != "generic" or arity != 4:
+                continue
+            from pyjelly.integrations.generic import generic_sink as gs
+            bad = gs.Triple(*objs[:3])            # a triple in a sequence of quads
+        else:
+            bad = (*objs[:2], Alien(), *objs[3:])
+        sim.count("generator_entry_faults")
+        sim.fault("reject_" + cause)
+
+        def source(bad=bad):
+            for i, st in enumerate(stmts):
+                if i == pos:
+                    yield bad
+                yield nodes.conv_stmt(cfg)(st)
+        out = io.BytesIO()
+        exc = None
+        try:
+            for fr in m.stream_frames(nodes.make_stream(cfg), source()):
+                write_delimited(fr, out)
+        except Exception as e:  # noqa: BLE001
+            exc = e
+        sim.event("generator_entry", cause, type(exc).__name__ if exc else None, len(out.getvalue()))
+        if exc is not None:
+            sim.count("generator_entry_raised")
+            continue
+        data = out.getvalue()
+        r = refdec.decode_stream(data, True, strict=False) if data else None
+        n_got = len(list(r.statements())) if r is not None and r.ok else 0
+        if n_got < len(stmts):
+            v.append({"clause": "C20.generator_entry_silently_truncated", "sig": {"cause": cause, "physical": cfg["physical"]},
+                      "msg": f"stream_frames(stream, <iterator of {len(stmts)} good statements with a {cause} at position "
+                             f"{pos}>) returned normally, no exception; the {len(data)} bytes written hold {n_got} statements"})
+    return v
 
 
 def c02_norm(st):
